@@ -469,7 +469,7 @@ static void op_witness(void) {
 
 static void run_case(char **lines, int n) {
   int i;
-  alarm(20);
+  alarm(120);   /* watchdog: loops are caught by the select counters long before */
   vs_quiet();
   for (i = 0; i < n; i++) {
     char buf[1 << 16], *tok[8]; int nt = 0; char *p;
